@@ -21,3 +21,5 @@ pub mod verif_c12;
 pub mod verif_filter;
 #[cfg(feature = "verif-hooks")]
 pub mod verif_stream;
+#[cfg(feature = "verif-hooks")]
+pub use io::verif_bmp_read;
